@@ -24,6 +24,8 @@ pub mod verif_seam;
 mod tests;
 
 pub use engine::{JobKind, PPGEvaluator};
+#[cfg(tyberiusprime_pypipegraph2_verif)]
+pub use engine::JobOutputResult;
 
 static LOGGER_INIT: Once = Once::new();
 
